@@ -87,6 +87,17 @@ def start_raise_machine(rng):
         for e in ("E", "F"):
             if rng.random() < 0.6:
                 nodes[s].on.append((e, [Trans(next(tid), s, e, rng.choice([1, 2, 3, 4]), actions=[("mark", next(mark))])]))
+    # the start-up step itself may SUSPEND (async engine): the initial state owns a timer, so leaving it awaits the cancellation
+    # of a task, or the eventless transition runs an awaiting action - events raised during start must still wait for the
+    # start-up settle to finish (third-round seeded change C04-C released the consumer loop before the settle)
+    r = rng.random()
+    if r < 0.35:
+        d = rng.choice([500, 900])
+        nodes[1].after.append((d, [Trans(next(tid), 1, "after.%d.%s" % (d, am.sid(1)), 3, actions=[("mark", next(mark))])]))
+    elif r < 0.6:
+        for key, ts in nodes[1].on:
+            if key == "":
+                ts[0].actions = [("slow", next(mark), rng.choice([20, 60]))] + ts[0].actions
     return am
 
 
